@@ -21,6 +21,8 @@ TRUSTED = [
 
 def engine_check(ctx, prop_file, families, what, relevant=None, stream_b=None, runner_name=None, extra_cov=None):
     """families: list of (family function name, n_quick, n_thorough)."""
+    if ctx.replay:
+        return replay_case(ctx, runner_name, what)
     g = ctx.coq_gate(prop_file)
     cov = ctx.coverage
     tot_runs = 0
@@ -66,3 +68,28 @@ def engine_check(ctx, prop_file, families, what, relevant=None, stream_b=None, r
     tb = list(TRUSTED) + ["axioms per theorem as printed by Print Assumptions: " +
                           (", ".join(cov.get("axioms_used", [])) or "none (closed under the global context)")]
     return ctx.finish(tb)
+
+
+def replay_case(ctx, runner_name, what):
+    """./check Cxx --replay <file>: re-run the engine case stored in a replay file on the current tree and have the
+    monitor judge it again (exit 1 + VIOLATION when it is still rejected)."""
+    from .. import engine as E
+    from .. import families as F
+    data = json.load(open(ctx.replay))
+    c = data.get("case", {})
+    case = c.get("case") if isinstance(c.get("case"), dict) else c
+    if not isinstance(case, dict) or "schedule" not in case:
+        print("replay file has no engine case (kind=%r): nothing to re-run" % c.get("kind"))
+        return ctx.finish(["(replay)"])
+    runner = (getattr(F, runner_name, None) if runner_name else None) or getattr(F, c.get("runner") or "", None) or EC.run_case
+    E.install()
+    mon = fw.ModelProc("monitor")
+    res = runner(EC.unjson_case(case), mon)
+    mon.close()
+    print("replay: " + EC.describe(res))
+    for e in res.events[-15:]:
+        print("   ", repr(e)[:200])
+    ctx.coverage["evaluations"] = 1
+    if res.verdict != []:
+        ctx.violation("%s [replay]: %s" % (what, EC.describe(res)), dict(kind="engine-run", replay_of=os.path.basename(ctx.replay), case=case))
+    return ctx.finish(["(replay of %s)" % os.path.basename(ctx.replay)])
